@@ -15,7 +15,7 @@ must be read; any failure aborts); `strict = false` the code before, kept for th
 
 How to read the statements:
 * the archive is any store `s` (not only ones a backup history produces) under explicit
-  well-formedness hypotheses: `ArchOK s D` (unique keys; the archive directory and `d/` exist; every
+  well-formedness hypotheses: `DelArchOK s D` (unique keys; the archive directory and `d/` exist; every
   KEPT band has an accepted head, an index directory and hunks that all decode with every entry
   passing `IndexEntry::check` (`entryUsable`) — otherwise strict mode aborts), `DirsOk s` (every
   stored key's parent is a directory), `newestComplete s`, no `GC_LOCK`;
@@ -84,7 +84,7 @@ theorem delete_refuses_locked (strict : Bool) (s : Store) (D : List Nat) (o : De
 /-- **`delete_dry_run`.**  A dry run succeeds, reports the number of unreferenced blocks, and
 changes nothing: the lock file is written and removed again, and the final store is the very same
 association list as before (list equality, not only `get?`-equality), with no event emitted. -/
-theorem delete_dry_run (s : Store) (D : List Nat) (o : DeleteOpts) (ok : ArchOK s D)
+theorem delete_dry_run (s : Store) (D : List Nat) (o : DeleteOpts) (ok : DelArchOK s D)
     (hfree : s.get? .gcLock = none) (hnew : newestComplete s) (hdry : o.dryRun = true) :
     ((deleteBands true D o).run (World.clean s)).1 = .ok { unreferencedBlockCount := (unrefOf s D).length } ∧
       ((deleteBands true D o).run (World.clean s)).2.store = s ∧
@@ -96,7 +96,7 @@ theorem delete_dry_run (s : Store) (D : List Nat) (o : DeleteOpts) (ok : ArchOK 
 /-- **`delete_exact`, core.**  A real run on a well-formed archive succeeds with the expected
 statistics and the final store is `deleted s D` — the initial association list with the keys
 at or under the band directories of `D` and the block files of `unrefOf s D` filtered out. -/
-theorem delete_exact_store (s : Store) (D : List Nat) (o : DeleteOpts) (ok : ArchOK s D)
+theorem delete_exact_store (s : Store) (D : List Nat) (o : DeleteOpts) (ok : DelArchOK s D)
     (hfree : s.get? .gcLock = none) (hnew : newestComplete s) (hdry : o.dryRun = false)
     (hnd : D.Nodup) (hex : ∀ b ∈ D, b ∈ bandIdsOf s) :
     ((deleteBands true D o).run (World.clean s)).1 = .ok (realStats s D) ∧
@@ -107,7 +107,7 @@ theorem delete_exact_store (s : Store) (D : List Nat) (o : DeleteOpts) (ok : Arc
   rw [Store.get?_of_mem_unique ok.nodup (mem_bandIdsOf'.1 (hex b hb))]
   rfl
 
-/-- **`delete_exact`.**  Clean world, real run, `ArchOK s D`, `DirsOk s`, newest band complete, no
+/-- **`delete_exact`.**  Clean world, real run, `DelArchOK s D`, `DirsOk s`, newest band complete, no
 lock, `D` without repetitions and every band of `D` present.  Then the run succeeds with
 `deleted_band_count = |D|`, `unreferenced_block_count = deleted_block_count = |unrefOf s D|`, no
 deletion errors, and for the final store `s'`:
@@ -119,7 +119,7 @@ deletion errors, and for the final store `s'`:
     `unrefOf s D` has no repetitions, so its length is the number of such blocks;
 (c) everything else (header, `d/` and its subdirectories, stray files) is unchanged and there is
     no `GC_LOCK`. -/
-theorem delete_exact (s : Store) (D : List Nat) (o : DeleteOpts) (ok : ArchOK s D) (hdirs : DirsOk s)
+theorem delete_exact (s : Store) (D : List Nat) (o : DeleteOpts) (ok : DelArchOK s D) (hdirs : DirsOk s)
     (hfree : s.get? .gcLock = none) (hnew : newestComplete s) (hdry : o.dryRun = false)
     (hnd : D.Nodup) (hex : ∀ b ∈ D, b ∈ bandIdsOf s) :
     let r := (deleteBands true D o).run (World.clean s)
@@ -189,7 +189,7 @@ final store is `deleted (s.erase GC_LOCK) D` (so `delete_exact`'s conclusions (a
 `s.erase GC_LOCK` in place of `s`); a dry run ends in `s.erase GC_LOCK` — the stale lock is gone,
 nothing else has changed. -/
 theorem delete_exact_break_lock (s : Store) (D : List Nat) (o : DeleteOpts)
-    (ok : ArchOK (s.erase .gcLock) D) (hroot : s.get? .root = some .dir)
+    (ok : DelArchOK (s.erase .gcLock) D) (hroot : s.get? .root = some .dir)
     (hb : o.breakLock = true) (hl : fileAt s .gcLock = true) (hnew : newestComplete s)
     (hnd : D.Nodup) (hex : ∀ b ∈ D, b ∈ bandIdsOf s) :
     let r := (deleteBands true D o).run (World.clean s)
@@ -213,7 +213,7 @@ that cannot be removed — it has no directory entry, or it already occurs in `p
 the run fails with `BandNotFound b` midway: the bands of `pre` are gone, no block has been removed
 (the blocks only they referenced stay as garbage), and the lock is released by `Drop`. -/
 theorem delete_missing_band (s : Store) (pre post : List Nat) (b : Nat) (o : DeleteOpts)
-    (ok : ArchOK s (pre ++ b :: post)) (hfree : s.get? .gcLock = none) (hnew : newestComplete s)
+    (ok : DelArchOK s (pre ++ b :: post)) (hfree : s.get? .gcLock = none) (hnew : newestComplete s)
     (hdry : o.dryRun = false) (hnd : pre.Nodup) (hex : ∀ b' ∈ pre, b' ∈ bandIdsOf s)
     (hb : s.get? (.bandDir b) = none ∨ b ∈ pre) :
     ((deleteBands true (pre ++ b :: post) o).run (World.clean s)).1 = .err (.bandNotFound b) ∧
@@ -320,7 +320,7 @@ before the delete.  A kept INCOMPLETE band that stitches into a deleted band is 
 property ("every remaining COMPLETE version restores exactly"): the chain condition excludes it. -/
 def delete_keeps_restore_Statement : Prop :=
   ∀ (H : Str → Str) (s : Store) (D : List Nat) (o : DeleteOpts) (b : Nat),
-    ArchOK s D → DirsOk s → s.get? .gcLock = none → newestComplete s → o.dryRun = false → D.Nodup →
+    DelArchOK s D → DirsOk s → s.get? .gcLock = none → newestComplete s → o.dryRun = false → D.Nodup →
     (∀ b' ∈ D, b' ∈ bandIdsOf s) → (∀ c ∈ stitchChain s b, c ∉ D) →
     let s' := ((deleteBands true D o).run (World.clean s)).2.store
     let r := (restore H (.specified b) [slash] (fun _ => false)).run (World.clean s)
@@ -352,7 +352,7 @@ theorem delete_keeps_restore_partial (H : Str → Str) (s : Store) (D : List Nat
 `i`, `i/DDDDD`) are the very same lists as before, so `hunks_available` and `check_index_hunks` see
 the same; and `stitchChain` is the same for every version whose chain is kept... the chain
 membership tests (`BANDHEAD` / `BANDTAIL` present) are among the unchanged keys. -/
-theorem delete_keeps_listings (s : Store) (D : List Nat) (o : DeleteOpts) (ok : ArchOK s D)
+theorem delete_keeps_listings (s : Store) (D : List Nat) (o : DeleteOpts) (ok : DelArchOK s D)
     (hfree : s.get? .gcLock = none) (hnew : newestComplete s) (hdry : o.dryRun = false)
     (hnd : D.Nodup) (hex : ∀ b ∈ D, b ∈ bandIdsOf s) :
     let s' := ((deleteBands true D o).run (World.clean s)).2.store
@@ -441,7 +441,7 @@ theorem ex_kept0 : keptOf exStore [0] = [1] := by rw [keptOf, ex_bands]; decide
 /-- Deleting version 0: the only unreferenced block is the garbage block. -/
 theorem ex_unref0 : unrefOf exStore [0] = [hG] := by
   have hr : refsOf exStore [1] = [hA, hB] := by
-    simp only [refsOf, bandRefs, ex_hunks 1 (Or.inr rfl)]
+    simp only [refsOf, bandRefHashes, ex_hunks 1 (Or.inr rfl)]
     decide
   rw [unrefOf, ex_kept0, hr, ex_blocks]
   show List.mergeSort [hG] strLe = [hG]
@@ -452,7 +452,7 @@ theorem ex_kept1 : keptOf exStore [1] = [0] := by rw [keptOf, ex_bands]; decide
 /-- Deleting version 1 instead: `bbb2` becomes unreferenced too. -/
 theorem ex_unref1 : unrefOf exStore [1] = [hB, hG] := by
   have hr : refsOf exStore [0] = [hA] := by
-    simp only [refsOf, bandRefs, ex_hunks 0 (Or.inl rfl)]
+    simp only [refsOf, bandRefHashes, ex_hunks 0 (Or.inl rfl)]
     decide
   rw [unrefOf, ex_kept1, hr, ex_blocks]
   show List.mergeSort [hB, hG] strLe = [hB, hG]
@@ -465,13 +465,13 @@ theorem ex_readable (b : Nat) (hb : b = 0 ∨ b = 1) : BandReadable exStore b :=
   · rw [ex_hunks b hb]
     rcases hb with rfl | rfl <;> decide
 
-theorem ex_archOK0 : ArchOK exStore [0] where
+theorem ex_archOK0 : DelArchOK exStore [0] where
   nodup := by decide
   root := by decide
   blockRoot := by decide
   kept := by rw [ex_kept0]; intro b hb; exact ex_readable b (Or.inr (by simpa using hb))
 
-theorem ex_archOK1 : ArchOK exStore [1] where
+theorem ex_archOK1 : DelArchOK exStore [1] where
   nodup := by decide
   root := by decide
   blockRoot := by decide
@@ -491,7 +491,7 @@ theorem ex_newest : newestComplete exStore := by
   decide
 
 /-- All hypotheses of `delete_exact` (and `delete_dry_run`) hold for `D = [0]` on the example. -/
-example : ArchOK exStore [0] ∧ DirsOk exStore ∧ exStore.get? .gcLock = none ∧ newestComplete exStore ∧
+example : DelArchOK exStore [0] ∧ DirsOk exStore ∧ exStore.get? .gcLock = none ∧ newestComplete exStore ∧
     [0].Nodup ∧ ∀ b ∈ [0], b ∈ bandIdsOf exStore :=
   ⟨ex_archOK0, ex_dirsOk, ex_lockFree, ex_newest, by decide, by rw [ex_bands]; decide⟩
 
@@ -545,7 +545,7 @@ example : (Store.get? (exStore ++ [(Key.gcLock, FileVal.lock)]) .gcLock).isSome 
 
 /-- `delete_missing_band`: `D = [0, 7]`, version 7 does not exist; version 0 is removed, then the
 run fails. -/
-example : ArchOK exStore ([0] ++ 7 :: []) ∧ exStore.get? (.bandDir 7) = none := by
+example : DelArchOK exStore ([0] ++ 7 :: []) ∧ exStore.get? (.bandDir 7) = none := by
   refine ⟨⟨by decide, by decide, by decide, ?_⟩, by decide⟩
   have : keptOf exStore ([0] ++ 7 :: []) = [1] := by rw [keptOf, ex_bands]; decide
   rw [this]; intro b hb; exact ex_readable b (Or.inr (by simpa using hb))
